@@ -23,6 +23,8 @@ type gdriver struct {
 	Log   []map[string]any
 	// nodes created by this driver, in creation order
 	Made []string
+	// Finite keeps generated values finite (the HTTP API cannot JSON-encode +-Inf)
+	Finite bool
 }
 
 func newGdriver(r *vlib.R, nc *nats.Conn, root, tag string) *gdriver {
@@ -84,6 +86,9 @@ func (d *gdriver) somePoints(n int) data.Points {
 			pts[i].Value = 0
 		default:
 			pts[i].Value = d.r.Float()
+			if d.Finite && math.IsInf(pts[i].Value, 0) {
+				pts[i].Value = 1e300
+			}
 		}
 	}
 	// identities within one batch are made distinct so that "accepted" has one meaning
